@@ -148,7 +148,9 @@ def lit_clause(ty, text, value):
 
 
 def build_c03(u, ty, files):
-    P = ["C03"]
+    # C02: the inline form is the parameterised form with each placeholder replaced by the backend's LITERAL for the bound value: that the
+    # text written inline denotes the value is these same obligations
+    P = ["C03", "C02"]
     # ---- write_string_quoted -------------------------------------------------------------------
     path, blk, how = resolve(u, "QueryBuilder", ty, "write_string_quoted", QB, files["query"])
     key = "%s::write_string_quoted[%s]" % (ty, how)
